@@ -89,9 +89,35 @@ def run(ctx):
         stores = [o for o in atomic_ops(push) if o[1] == "store"]
         sy_ = Sym(push)
 
+        def offset(x):
+            """k if x is (the claimed pre-increment count) + k for a constant k, else None"""
+            x = strip_sym(x)
+            if x[0] == "field" and x[2] == "0":
+                x = strip_sym(x[1])
+            if sym_is_call(x, "fetch_add"):
+                return 0
+            if x[0] == "bin" and x[1][:3] in ("Add", "Sub"):
+                sgn = 1 if x[1].startswith("Add") else -1
+                k0, k1 = const_int(x[3]), const_int(x[2])
+                if k0 is not None and offset(x[2]) is not None:
+                    return offset(x[2]) + sgn * k0
+                if k1 is not None and sgn == 1 and offset(x[3]) is not None:
+                    return offset(x[3]) + k1
+                return None
+            for nm_, sgn in (("saturating_add", 1), ("wrapping_add", 1), ("checked_add", 1), ("unchecked_add", 1), ("saturating_sub", -1), ("wrapping_sub", -1)):
+                if sym_is_call(x, nm_) and len(x[2]) == 2 and const_int(x[2][1]) is not None and offset(x[2][0]) is not None:
+                    return offset(x[2][0]) + sgn * const_int(x[2][1])
+            return None
+
         def lt_len(dd, who):
             dd = strip_sym(dd)
-            return isinstance(dd, tuple) and dd and dd[0] == "bin" and dd[1] == "Lt" and who in sym_str(dd[2]) and "len" in sym_str(dd[3])
+            if not (isinstance(dd, tuple) and dd and dd[0] == "bin" and who in sym_str(dd[2]) and "len" in sym_str(dd[3])):
+                return False
+            if who != "fetch_add":
+                return dd[1] == "Lt"
+            # filling: (claimed position) < len, also spelled (claimed position + 1) <= len
+            k = offset(dd[2])
+            return (dd[1] == "Lt" and k == 0) or (dd[1] == "Le" and k == 1)
 
         def index_alts(l, at_bb, depth=0):
             """Where the index of a `values[i]` can come from: [(block deciding the alternative, operand, filter closures)].
@@ -160,12 +186,14 @@ def run(ctx):
                             in_range = True
                     not_filling = any(lab is False and lt_len(dd, "fetch_add") and "fastrand" not in sym_str(dd) for dd, lab in g_)
                     repls.append(in_range and not_filling)
+                elif "fetch_add" in sym_str(v) and offset(v) not in (0, None):
+                    okf, whyf = False, f"a value of the fill phase is stored at (claimed position){offset(v):+d}"
                 elif sym_is_call(v, "fetch_add") or "fetch_add" in sym_str(v):
                     fills.append(any(lab is True and lt_len(dd, "fetch_add") and "fastrand" not in sym_str(dd) for dd, lab in g_))
                 else:
                     okf, whyf = False, f"a slot index that is neither the claimed position nor the drawn one ({sym_str(v)[:50]})"
         okf = okf and fills == [True] and repls == [True]
-        chk.ob("C16.b", f"{push.path} [fill / replace]", okf, "idx < len: store at idx; otherwise store at the drawn index only if it is < len; value = value.to_bits()" if okf else "push does not fill while idx < capacity and otherwise replace only in-range drawn indexes", push.loc())
+        chk.ob("C16.b", f"{push.path} [fill / replace]", okf, "idx < len: store at idx; otherwise store at the drawn index only if it is < len; value = value.to_bits()" if okf else (whyf or "push does not fill exactly while (values seen before this one) < capacity and otherwise replace only in-range drawn indexes: the value that should take the last free slot overwrites a random one, or a slot beyond the claim is written"), push.loc())
     fr_f = u.fn(f"{R}::fastrand")
     if need(chk, "C16.a", "fastrand", fr_f):
         rr = [c for c in fr_f.region_calls() if callee_method_name(c) in ("random_range", "gen_range")]
@@ -210,6 +238,27 @@ def run(ctx):
             ok = ok and cmp_ok
         chk.ob("C16.b", drain.path, ok, "drain: unsampled_len = count.load(); len = min(count, capacity); idx = 0" if ok else "drain does not clamp its length to min(count, capacity)", drain.loc())
     D = f"{R}::Drain"
+    # the capacity asked for is the capacity used: between the constructor's parameter and the slots allocated there is no
+    # arithmetic (rounding, +1, max, ...), in either constructor
+    ARITH = ("Add", "Sub", "Mul", "Div", "Rem", "Shl", "Shr", "BitAnd", "BitOr", "BitXor")
+    for ty_, nm_ in ((RES, "with_capacity"), (f"{R}::AtomicSamplingReservoir", "new")):
+        cf = (u.method(ty_, nm_) or [None])[0]
+        if cf is None:
+            chk.unrecognised("C16.b", f"<anchor> {ty_}::{nm_}", "missing")
+            continue
+        changed = []
+        for g_ in cf.region():
+            sg = Sym(g_)
+            for c in g_.body.calls():
+                for a in c.args:
+                    for x in sym_walk(sg.operand(a)):
+                        if not (isinstance(x, tuple) and x):
+                            continue
+                        if x[0] == "bin" and any(x[1].startswith(o) for o in ARITH) and "('arg', 0" in repr(x):
+                            changed.append((c, sym_str(x)[:60]))
+                        elif x[0] == "call" and isinstance(x[1], str) and ("num::<impl usize>" in x[1] or strip_generics(x[1]).split("::")[-1] in ("max", "min", "clamp")) and "('arg', 0" in repr(x[2]):
+                            changed.append((c, sym_str(x)[:60]))
+        chk.ob("C16.b", f"{cf.path} [capacity as requested]", not changed, "the capacity parameter reaches the slot allocation unchanged" if not changed else f"the requested capacity is changed before use ({changed[0][1]}): a drain can yield more (or fewer) values than the configured capacity while reporting rate 1.0", changed[0][0].loc() if changed else cf.loc(), nontrivial=False)
     sr = one_method(chk, "C16.b", u, D, "sample_rate")
     if sr:
         r = strip_sym(Sym(sr).local(0))
